@@ -192,6 +192,9 @@ def gen_case(seed, tier):
     if fmt == 'python' and rng.random() < 0.5:
         # a Python-literal target may hold tuples: collections all the same (JSON arrays when printed)
         target = _tuplify(rng, target)
+    if fmt in ('python', 'yaml') and rng.random() < 0.3:
+        # Python-literal and YAML targets may have NUMERIC keys: printed the way json.dumps sorts and writes them
+        target = _intkeyify(rng, target, top=True)
     if not isinstance(spec, (str, dict, list, tuple)):
         spec = []           # (a bare number / None as the whole spec text would be read as a path string)
     if mode == 'falsy':
@@ -211,6 +214,7 @@ def gen_case(seed, tier):
             'indent': rng.choice([None, None, 0, 2, 4]), 'scalar': rng.random() < 0.25, 'mode': mode,
             'real_subprocess': seed % (200 if tier == 'quick' else 60) == 0,
             'knobs': simrun.draw_knobs(rng),
+            'decoy_file': rng.random() < 0.15,
             'spec_file_name': rng.choice(['/sim/spec.txt', '/sim/spec.txt', '/sim/spec.py', '/sim/spec.json',
                                           '/sim/spec.glom', '/sim/spec', '/sim/SPEC.PY', '/sim/spec.yaml'])}
     if case['real_subprocess']:
@@ -257,6 +261,18 @@ def _tuplify(rng, v):
     return v
 
 
+def _intkeyify(rng, v, top=False):
+    if isinstance(v, dict) and '__tuple__' not in v:
+        if not top and rng.random() < 0.5:
+            vals = [_intkeyify(rng, x) for x in v.values()] or [0]
+            keys = rng.sample([2, 10, 9, 100, 1], min(len(vals) + 1, 4))
+            return {'__intkeys__': [[k, vals[i % len(vals)]] for i, k in enumerate(keys)]}
+        return {k: _intkeyify(rng, x) for k, x in v.items()}
+    if isinstance(v, list):
+        return [_intkeyify(rng, x) for x in v]
+    return v
+
+
 def _tag_tuples(s):
     """make tuples JSON-able for the replay file"""
     if isinstance(s, tuple):
@@ -272,6 +288,8 @@ def _untag(s):
     if isinstance(s, dict):
         if set(s) == {'__tuple__'}:
             return tuple(_untag(x) for x in s['__tuple__'])
+        if set(s) == {'__intkeys__'}:
+            return {k: _untag(x) for k, x in s['__intkeys__']}
         return {k: _untag(v) for k, v in s.items()}
     if isinstance(s, list):
         return [_untag(x) for x in s]
@@ -325,6 +343,39 @@ class SimFS:
                        encoding=kw.get('encoding') or (a[1] if len(a) > 1 else None), errors=kw.get('errors'))
 
 
+class SimOS:
+    """the ``os`` module as the CLI sees it: questions about files are answered by the simulated file system
+    (the process's working directory is the root of it), everything else by the real module"""
+
+    class _Path:
+        def __init__(self, fs):
+            self._fs = fs
+
+        def _known(self, p):
+            return isinstance(p, str) and p in self._fs.files and self._fs.errors.get(p) != 'enoent'
+
+        def exists(self, p):
+            self._fs.log.append(['stat', p])
+            return self._known(p)
+
+        def isfile(self, p):
+            self._fs.log.append(['stat', p])
+            return self._known(p) and self._fs.errors.get(p) != 'eisdir'
+
+        def isdir(self, p):
+            self._fs.log.append(['stat', p])
+            return self._known(p) and self._fs.errors.get(p) == 'eisdir'
+
+        def __getattr__(self, name):
+            return getattr(os.path, name)
+
+    def __init__(self, fs):
+        self.path = SimOS._Path(fs)
+
+    def __getattr__(self, name):
+        return getattr(os, name)
+
+
 class SimStdin(io.StringIO):
     def __init__(self, log, text, tty=False, closed=False, fault=None):
         super().__init__(text if isinstance(text, str) else '')
@@ -361,7 +412,7 @@ class Trip:
 def build_invocation(case):
     """-> argv, files {path: content}, stdin spec, expected inputs"""
     fmt = case['fmt']
-    target_text = render_target(_untag(case['target']) if fmt == 'python' else case['target'], fmt)
+    target_text = render_target(_untag(case['target']) if fmt in ('python', 'yaml') else case['target'], fmt)
     spec = _untag(case['spec'])
     if case['spec_format'] == 'json':
         spec_text = json.dumps(spec)
@@ -447,6 +498,12 @@ def build_invocation(case):
     elif fault == 'stdin_undecodable':
         stdin['text'] = b'\xff\xfe' + target_text.encode()
     argv += posargs
+    if case.get('decoy_file'):
+        # a file in the working directory whose NAME is one of the positional arguments: an argument is
+        # the spec / the target itself, never the name of something to read
+        for a in posargs:
+            if a and '/' not in a and '\x00' not in a and len(a.encode()) < 120 and a not in ('-', '.', '..') and a not in files:
+                files[a] = '{"decoy": "this file must not be read"}'
     return {'argv': argv, 'files': files, 'errors': errors, 'read_faults': read_faults, 'stdin': stdin,
             'target_text': target_text, 'spec_text': spec_text, 'no_spec': no_spec}
 
@@ -457,9 +514,10 @@ def run_inprocess(G, inv):
     fs = SimFS(log)
     fs.files, fs.errors, fs.read_faults = dict(inv['files']), dict(inv['errors']), dict(inv['read_faults'])
     g = cli.__dict__
-    saved = {n: g.get(n, None) for n in ('open', 'exec', 'eval', 'compile', '_eval_python_full_spec', '_compile_code')}
+    saved = {n: g.get(n, None) for n in ('open', 'exec', 'eval', 'compile', '_eval_python_full_spec', '_compile_code', 'os')}
     import builtins
     g['open'] = fs.open
+    g['os'] = SimOS(fs)
     g['exec'] = Trip(log, 'exec', builtins.exec)
     g['eval'] = Trip(log, 'eval', builtins.eval)
     g['compile'] = Trip(log, 'compile', builtins.compile)
@@ -507,7 +565,7 @@ def run_real(case, inv):
         for a in inv['argv'][1:]:
             argv.append(a.replace('/sim/', td + '/'))
         for p, c in inv['files'].items():
-            rp = p.replace('/sim/', td + '/')
+            rp = p.replace('/sim/', td + '/') if p.startswith('/sim/') else os.path.join(td, p)
             e = inv['errors'].get(p)
             if e == 'enoent':
                 continue
